@@ -61,3 +61,21 @@ pub proof fn lemma_neg_i64_as_usize()
 }
 pub assume_specification<T>[<Arc<T> as From<T>>::from](t: T) -> (r: Arc<T>) ensures *r == t;
 pub assume_specification[<Ordering as PartialEq>::eq](a: &Ordering, b: &Ordering) -> (r: bool) ensures r == (*a == *b);
+// integer methods of std without a vstd specification (documented std behaviour, ASSUMED)
+pub assume_specification [i64::checked_neg] (x: i64) -> (r: std::option::Option<i64>)
+    ensures r == (if x == i64::MIN { None::<i64> } else { Some((0 - x) as i64) });
+pub assume_specification [i64::unsigned_abs] (x: i64) -> (r: u64)
+    ensures r as int == (if x < 0 { -(x as int) } else { x as int });
+pub assume_specification [i64::checked_abs] (x: i64) -> (r: std::option::Option<i64>)
+    ensures r == (if x == i64::MIN { None::<i64> } else { Some((if x < 0 { 0 - x } else { x as int }) as i64) });
+pub assume_specification [i64::trailing_zeros] (x: i64) -> (r: u32) ensures r <= 64;
+pub assume_specification [i64::leading_zeros] (x: i64) -> (r: u32) ensures r <= 64;
+pub assume_specification [i64::signum] (x: i64) -> (r: i64) ensures r == (if x < 0 { -1i64 } else if x == 0 { 0i64 } else { 1i64 });
+pub assume_specification [i64::is_negative] (x: i64) -> (r: bool) ensures r == (x < 0);
+pub assume_specification [i64::is_positive] (x: i64) -> (r: bool) ensures r == (x > 0);
+pub assume_specification [u64::is_power_of_two] (x: u64) -> (r: bool);
+pub assume_specification [i64::saturating_add] (x: i64, y: i64) -> (r: i64)
+    ensures r as int == (if x + y > i64::MAX { i64::MAX as int } else if x + y < i64::MIN { i64::MIN as int } else { x + y });
+pub assume_specification [i64::saturating_sub] (x: i64, y: i64) -> (r: i64)
+    ensures r as int == (if x - y > i64::MAX { i64::MAX as int } else if x - y < i64::MIN { i64::MIN as int } else { x - y });
+pub assume_specification<T>[<Box<T> as From<T>>::from](t: T) -> (r: Box<T>) ensures *r == t;
